@@ -101,8 +101,31 @@ var shapeStragglerRound = [][2]int{
 	{0, 95}, {2, 96}, {4, 97}, {0, 95}, {2, 89}, {0, 98}, {2, 89}, {6, 102}, {0, 103}, {6, 102}, {2, 95}, {3, 105},
 }
 
-var shapeCorpus = map[string][][2]int{"long-election": shapeLongElections[0], "long-election-1": shapeLongElections[1], "long-election-2": shapeLongElections[2], "long-election-3": shapeLongElections[3], "straggler-round": shapeStragglerRound}
-var shapeCreators = map[string]int{"long-election": 4, "long-election-1": 4, "long-election-2": 4, "long-election-3": 4, "straggler-round": 7}
+// shapeBareSupermajority: five validators (supermajority four). The votes on a
+// round-1 witness split three/two; in round 3 one witness strongly sees
+// exactly four witnesses and collects three no / one yes, three others collect
+// two/two, one collects three no / two yes; in round 4 a witness that does not
+// descend from the first one collects three yes / one no. Three concurring
+// votes out of four collected are not a supermajority of five: nobody may
+// decide there. The first of these witnesses (event 37) is not referenced by
+// anybody for a long while. Then ring gossip. (5 validators, 128 events; the
+// schedule of a seeded change's demonstration.)
+var shapeBareSupermajority = [][2]int{
+	{0, -1}, {1, -1}, {2, -1}, {3, -1}, {4, -1}, {4, 2}, {2, 1}, {2, 1}, {4, 0}, {0, 3}, {2, 3}, {0, 8},
+	{3, 11}, {2, 11}, {3, 13}, {2, 14}, {4, 11}, {0, 15}, {1, 13}, {2, 16}, {3, 16}, {4, 15}, {2, 17}, {3, 22},
+	{4, 23}, {0, 24}, {2, 25}, {3, 26}, {0, 27}, {2, 28}, {4, 18}, {4, 27}, {1, 31}, {3, 29}, {4, 33}, {3, 34},
+	{2, 35}, {0, 36}, {4, 32}, {3, 38}, {2, 39}, {3, 40}, {4, 41}, {1, 42}, {2, 43}, {3, 44}, {4, 45}, {0, 46},
+	{2, 47}, {3, 48}, {4, 49}, {1, 50}, {0, 51}, {2, 52}, {3, 53}, {4, 54}, {1, 55}, {0, 56}, {2, 57}, {3, 58},
+	{4, 59}, {1, 60}, {0, 61}, {2, 62}, {3, 63}, {4, 64}, {1, 65}, {0, 66}, {2, 67}, {3, 68}, {4, 69}, {1, 70},
+	{0, 71}, {2, 72}, {3, 73}, {4, 74}, {1, 75}, {0, 76}, {2, 77}, {3, 78}, {4, 79}, {1, 80}, {0, 81}, {2, 82},
+	{3, 83}, {4, 84}, {1, 85}, {0, 86}, {2, 87}, {3, 88}, {4, 89}, {1, 90}, {0, 91}, {2, 92}, {3, 93}, {4, 94},
+	{1, 95}, {0, 96}, {2, 97}, {3, 98}, {4, 99}, {1, 100}, {0, 101}, {2, 102}, {3, 103}, {4, 104}, {1, 105}, {0, 106},
+	{2, 107}, {3, 108}, {4, 109}, {1, 110}, {0, 111}, {2, 112}, {3, 113}, {4, 114}, {1, 115}, {0, 116}, {2, 117}, {3, 118},
+	{4, 119}, {1, 120}, {0, 121}, {2, 122}, {3, 123}, {4, 124}, {1, 125}, {0, 126},
+}
+
+var shapeCorpus = map[string][][2]int{"long-election": shapeLongElections[0], "long-election-1": shapeLongElections[1], "long-election-2": shapeLongElections[2], "long-election-3": shapeLongElections[3], "straggler-round": shapeStragglerRound, "bare-supermajority": shapeBareSupermajority}
+var shapeCreators = map[string]int{"long-election": 4, "long-election-1": 4, "long-election-2": 4, "long-election-3": 4, "straggler-round": 7, "bare-supermajority": 5}
 
 func genDagFromShape(rng *rand.Rand, seed int64, shape [][2]int, n int) *Dag {
 	return genDagFromShapePerm(rng, seed, shape, n, rng.Perm(n))
